@@ -344,19 +344,22 @@ def run (ctx):
            any(norm(x) == '_STP_MAC' for x in (e.left, e.comparators[0])) and any(isinstance(x, ast.Attribute) and x.attr == 'dst' for x in (e.left, e.comparators[0]))
   stp_cmp = [n for n in ast.walk(rx.node) if stp_test(n)]
   ctx.ob('R-AGREE', rx, "STP frames are recognised by the bridge group address", len(stp_cmp) >= 1, "%s" % (norm(stp_cmp[0]) if stp_cmp else "no comparison of the destination with _STP_MAC"), rx, 'D3')
-  for nr in (0, 4):
-    for ns in (0, 8):
-      for stp in (False, True):
+  # (the verdict depends on these two flags only: with every other configuration flag set as well - NO_STP, NO_FLOOD, NO_FWD,
+  # NO_PACKET_IN - it must be the same)
+  OTHER = 2 | 16 | 32 | 64
+  for nr, ns, stp, extra in [(a_, b_, c_, d_) for a_ in (0, 4) for b_ in (0, 8) for c_ in (False, True) for d_ in (0, OTHER)]:
+    for _once in (0,):
+      for _once2 in (0,):
         ms = [(_bit('OFPPC_NO_RECV'), nr), (_bit('OFPPC_NO_RECV_STP'), ns),
               ((lambda e: stp_test(e) and isinstance(e.ops[0], ast.Eq)), stp), ((lambda e: stp_test(e) and isinstance(e.ops[0], ast.NotEq)), not stp),
-              ((lambda e: isinstance(e, ast.Attribute) and e.attr == 'config' and norm(e.value) in ('port', 'self.ports[in_port]', 'self.ports.get(in_port)')), nr | ns),
+              ((lambda e: isinstance(e, ast.Attribute) and e.attr == 'config' and norm(e.value) in ('port', 'self.ports[in_port]', 'self.ports.get(in_port)')), nr | ns | extra),
               (_port_get, '<port>'), (_port_in, True), (_port_notin, False)]
         env = q.Env({'port is None': False, 'self.config_flags & OFPC_FRAG_MASK': 0}, ms)
         r = q.reach_under_cp(repo, swmod, g, env, sw)
         accept = not ((nr and not stp) or (ns and stp))
         got = [t for t in tg if t in r]
         good = (len(got) == len(tg)) if accept else not got
-        ctx.ob('R-DOM', rx, "receive rule: NO_RECV=%d NO_RECV_STP=%d %s frame -> %s" % (bool(nr), bool(ns), 'STP' if stp else 'ordinary', 'accepted' if accept else 'dropped'), good,
+        ctx.ob('R-DOM', rx, "receive rule: NO_RECV=%d NO_RECV_STP=%d%s %s frame -> %s" % (bool(nr), bool(ns), ' (all other flags set)' if extra else '', 'STP' if stp else 'ordinary', 'accepted' if accept else 'dropped'), good,
                "counters and lookup %s" % ("reachable" if accept else "unreachable") if good else
                ("a frame that must be dropped still reaches `%s` (line %s): it is counted / looked up / forwarded" % (got[0].text(40), got[0].line) if not accept else "a frame that must be accepted is dropped"),
                rx, 'D3')
@@ -472,7 +475,7 @@ def run (ctx):
   c18s_.packet_truth_tests(ctx, repo, repo.cls('datapaths.switch', 'SoftwareSwitchBase'), 'D1')
   # ---- mechanisms this property shares with others: their checks' rules about these functions are obligations here too
   ctx.include('C18', ['_process_actions_for_packet_from_buffer'], 'actions of a buffered packet run inside the use-and-free routine')
-  ctx.include('C14', ['udp.checksum', 'tcp.checksum', 'packet_utils:checksum'], "a frame whose fields an action rewrote is emitted with the checksums the packet library computes")
+  ctx.include('C14', ['udp.checksum', 'tcp.checksum', 'packet_utils:checksum', 'ipv4.checksum'], "a frame whose fields an action rewrote is emitted with the checksums the packet library computes")
 
 def _checksums (ctx, repo):
   """rewriting actions re-serialise the frame: the checksum routine they rely on (shared with C14)"""
